@@ -28,6 +28,24 @@ import (
 )
 
 func (m *Mon) stepC18(sc *StepCtx) {
+	// a context created in this step carries the ID of the message it was created under:
+	// transaction hash followed by the message index (8 bytes, big-endian)
+	if sc.Idx >= 0 && sc.Res.TxHash != "" {
+		want := sc.Res.TxHash + fmt.Sprintf("%016x", uint64(sc.Res.MsgIdx))
+		for id := range sc.Post.Contexts {
+			if _, old := sc.Pre.Contexts[id]; old {
+				continue
+			}
+			m.eval("C18")
+			m.hit("C18", "context-id-of-its-message", fmt.Sprintf("%s/idx%d", stepClass(sc), clampI(sc.Res.MsgIdx, 0, 3)))
+			if id != want {
+				m.fail(sc, "C18", "context-id-of-its-message", stepClass(sc), "%s ran as message %d of transaction %.16s.. but the context it created has ID %s", sc.Step.Desc, sc.Res.MsgIdx, sc.Res.TxHash, id)
+			}
+		}
+		if sc.Res.NewCtxID != "" && sc.Step.Kind == "mod" && sc.Res.NewCtxID != want {
+			m.fail(sc, "C18", "context-id-of-its-message", "returned", "%s ran as message %d of transaction %.16s.. but returned context ID %s", sc.Step.Desc, sc.Res.MsgIdx, sc.Res.TxHash, sc.Res.NewCtxID)
+		}
+	}
 	if !sc.IsBlock() && sc.info().modSvcCall == nil {
 		return
 	}
